@@ -250,6 +250,30 @@ func allScenarios() []scenBuilder {
 			}
 			return out, nil
 		}},
+		{"multiseat", func(tier string, rng *rand.Rand) ([]*Scen, error) {
+			b, err := buildMultiseat()
+			if err != nil {
+				return nil, err
+			}
+			v, err := b.view("multiseat", keepAll, "main", 0, true)
+			if err != nil {
+				return nil, err
+			}
+			s := newScen("multiseat", b, v)
+			s.Only = map[string]bool{"syncmsg": true, "contrib": true}
+			// the scenario exists for validators with seats in several subcommittees
+			multi := false
+			members, _ := s.syncCommitteeFor(v.HeadState(), v.TipSlot)
+			for _, m := range members {
+				if _, subs := s.seatsOf(members, m); len(subs) > 1 {
+					multi = true
+				}
+			}
+			if !multi {
+				return nil, fmt.Errorf("multiseat: no validator holds seats in two subcommittees")
+			}
+			return []*Scen{s}, nil
+		}},
 		{"gapfin", func(tier string, rng *rand.Rand) ([]*Scen, error) {
 			b, upTo, err := buildGapfin()
 			if err != nil {
